@@ -2,6 +2,7 @@ package main
 
 import (
 	"fmt"
+	"strings"
 
 	g "github.com/bobertlo/gmars"
 
@@ -151,8 +152,25 @@ func runC09(c *Ctx) {
 			set = r.Intn(1 << asm.NumPerturbations)
 		}
 		text := asm.Perturb(lines, set, d, r)
+		if idx%20011 == 7 {
+			// comment and blank lines may be many: a text padded beyond 32 MiB / 64 MiB (sizes where buffers, caps and
+			// 25-26-bit counters sit) still denotes the same warrior
+			mib := []int{33, 48, 65}[r.Intn(3)]
+			padLine := "; " + strings.Repeat("-", 1000) + "\n"
+			pad := strings.Repeat(padLine, mib*1024*1024/len(padLine)+1)
+			at := 0
+			if k := strings.Index(text, "\n"); k >= 0 && r.Bool() {
+				at = k + 1 // after the first line
+			}
+			text = text[:at] + pad + text[at:]
+			c.Inc("texts_padded_beyond_32_MiB")
+		}
 		cs := func() interface{} {
-			return &lfCase{Config: gc, Text: text, Want: coreStr(code), Start: start, Set: asm.PerturbSetName(set)}
+			t := text
+			if len(t) > 1<<20 {
+				t = describeText(t) // the case is regenerated from its index on replay
+			}
+			return &lfCase{Config: gc, Text: t, Want: coreStr(code), Start: start, Set: asm.PerturbSetName(set)}
 		}
 		c.Inc("texts")
 		c.Set("forms_covered", fmt.Sprintf("%d|%d", d, formOf(code[0])))
